@@ -102,7 +102,13 @@ impl<R: Records, S> DatasetBase<R, S> {
 
     /// Updates the weights of a dataset
     pub fn with_weights(mut self, weights: Array1<f32>) -> DatasetBase<R, S> {
-        self.weights = weights;
+        // `weights()` hands the weights out as a slice, so they are kept contiguous and in
+        // sample order (a strided or reversed array is copied once)
+        self.weights = if weights.is_standard_layout() {
+            weights
+        } else {
+            weights.iter().copied().collect()
+        };
 
         self
     }
